@@ -291,6 +291,9 @@ inductive JV where
   | bool (b : Bool)
   /-- `FeelNumber::jsonify` = the plain decimal text of the number (C07) -/
   | num (text : List Char)
+  /-- a number that is not finite (±Infinity, NaN; C02 F7): `FeelNumber::jsonify` writes `null`
+  (feel-number/src/number.rs, `dec_is_finite`), JSON has no text for it -/
+  | nonFinite
   | str (s : List Char)
   | list (xs : List JV)
   /-- entries in `BTreeMap` order; keys are `Name`s rendered with `Display` -/
@@ -332,6 +335,7 @@ def jsonify : JV → List Char
   | .bool true => ['t', 'r', 'u', 'e']                  -- format!("{}", value)
   | .bool false => ['f', 'a', 'l', 's', 'e']
   | .num t => t                                          -- value.jsonify()
+  | .nonFinite => ['n', 'u', 'l', 'l']                   -- value.jsonify(): not finite => "null"
   | .str s => quote s                                    -- format!("\"{}\"", json_escape(s))
   | .list xs => '[' :: (jsonifyItems xs ++ [']'])        -- format!("[{}]", … .join(", "))
   | .ctx es => '{' :: (jsonifyEntries es ++ ['}'])       -- format!("{{{}}}", … .join(", "))
@@ -367,6 +371,7 @@ def toJson : JV → Json
   | .null => .null
   | .bool b => .bool b
   | .num t => .num t
+  | .nonFinite => .null
   | .str s => .str s
   | .list xs => .arr (toJsonList xs)
   | .ctx es => .obj (toJsonEntries es)
